@@ -530,6 +530,13 @@ impl Property for C06 {
                 if *mutated {
                     rep.nontrivial = true;
                 }
+                // input class of known finding F27: a key of tens of thousands of bytes (the trie builder recurses
+                // once per key byte and overflows an 8 MiB stack near 32,700 bytes)
+                let long_key = |csv: &str| csv.lines().any(|l| l.split(',').next().map(|k| k.len() > 16_000).unwrap_or(false));
+                if !ctx.strict && (long_key(system_csv) || user_csv.as_deref().map(long_key).unwrap_or(false)) {
+                    rep.excluded = Some("F27");
+                    return rep;
+                }
                 let sys = match compile_system(matrix, system_csv) {
                     Err((clause, msg)) => {
                         rep.fail(&clause, format!("compiling panicked: {}", msg));
@@ -593,6 +600,27 @@ impl Property for C06 {
                         Err(p) => {
                             rep.fail(&format!("panic:sink:{}", panic_site(&p)), format!("sink failing at byte {}: {}", k, p));
                             return rep;
+                        }
+                    }
+                    if k % 7 == 3 || k + 1 == full.len() {
+                        // the caller retries on the same builder with a working sink: the result must be the dictionary
+                        // (compile must not have consumed anything the next compile needs)
+                        let mut again: Vec<u8> = Vec::new();
+                        match guarded(|| b.compile(&mut again)) {
+                            Ok(Ok(())) => {
+                                if again != full {
+                                    rep.fail("retry-after-sink-failure-differs", format!("after a sink failure at byte {} a second compile on the same builder wrote {} bytes that differ from the {} bytes of a fresh compile", k, again.len(), full.len()));
+                                    return rep;
+                                }
+                            }
+                            Ok(Err(e)) => {
+                                rep.fail("retry-after-sink-failure-error", format!("after a sink failure at byte {} a second compile on the same builder fails: {}", k, e));
+                                return rep;
+                            }
+                            Err(p) => {
+                                rep.fail(&format!("panic:retry:{}", panic_site(&p)), format!("second compile after a sink failure at byte {}: {}", k, p));
+                                return rep;
+                            }
                         }
                     }
                 }
@@ -687,6 +715,11 @@ pub fn fixtures() -> Vec<(&'static str, Case, &'static str)> {
                 mutated: true,
             },
             "F15: a word whose declared A units (a + あ) do not concatenate to its key (あa) compiles; analysing it in mode A cuts inside a character (panic)",
+        ),
+        (
+            "f27-key-of-32760-bytes.json",
+            Case::Build { matrix: "1 1\n".into(), system_csv: row(&"a".repeat(32_760), "0", "0"), user_csv: None, probes: vec![], mutated: true },
+            "F27: a row whose key has 32,760 bytes (the format allows 32,767 UTF-16 units) makes the trie builder (yada, one recursion level per key byte) overflow an 8 MiB stack: the process aborts instead of compile returning an error",
         ),
         (
             "f16-nul-in-key.json",
